@@ -2,6 +2,7 @@ package c15
 
 import (
 	"encoding/hex"
+	"runtime"
 	"testing"
 
 	"github.com/cnotch/ipchub/av/codec/aac"
@@ -162,8 +163,6 @@ func checkVideoWitness(t *testing.T, name, kind string, nal []byte, want h26xps.
 	}
 }
 
-var _ = hevc.NalSps
-
 // W6: RFC 7798 fmtp parameters after the sprop-* ones made ipchub give up on
 // the parameter sets (every value was base64-decoded, whatever its name).
 func TestWitnessH265SDPParamsAfterSprop(t *testing.T) {
@@ -272,5 +271,24 @@ func TestWitnessSDPMediaWithoutFormat(t *testing.T) {
 			}
 			s.Close()
 		}()
+	}
+}
+
+// W10: a 45-byte VPS that announces 49702 hrd_parameters() structures (the
+// standard allows at most vps_num_layer_sets_minus1 + 1 = 3 here, 7.4.3.1) made
+// Decode allocate 363 MB before it ran off the end of the data. Found by the
+// native fuzzer (workers were killed). The decoder must answer such input
+// within a sane allocation; 8 MiB is three orders above what a valid VPS needs.
+func TestWitnessVPSAllocation(t *testing.T) {
+	in := []byte("@\x01\f\x01\xff\xff\x01`\x00\x03\x00\x90\x00\x03\x00\x03\x00x,7y\x00\x03\x00\x00\x00\x03\x002:\x00\x00\x03\x01\xa3\b\x9c\x00\xb4a\x13\x89")
+	evid.Eval(1)
+	var m0, m1 runtime.MemStats
+	runtime.ReadMemStats(&m0)
+	var v hevc.H265RawVPS
+	err := v.Decode(in)
+	runtime.ReadMemStats(&m1)
+	if mb := (m1.TotalAlloc - m0.TotalAlloc) >> 20; mb > 8 {
+		evid.Violation(t, "witness-vps-alloc", map[string]any{"nal": hex.EncodeToString(in), "alloc_mb": mb},
+			"H265RawVPS.Decode of %d bytes allocated %d MB (err=%v)", len(in), mb, err != nil)
 	}
 }
